@@ -15,6 +15,8 @@ def one(i):
     try:
         r = json.loads(p.stdout[p.stdout.index("{"):])
         c = r["checks"][prop]
+        if not r.get("patch_applies"):
+            return i, dict(rc=None, kind="PATCH-DOES-NOT-APPLY", key=None)
         return i, dict(rc=c["rc"], kind=c.get("replay_kind"), key=(c.get("first") or {}).get("key"), tests=r.get("tests_tail"),
                        demo=(r.get("demo_clean_rc"), r.get("demo_mutated_rc")), lines=c.get("lines"))
     except Exception as e:  # noqa
